@@ -6,6 +6,7 @@
    real stack types driven through the verif hook; stream fp: peak VM footprint at n and 8n). *)
 From Coq Require Import List ZArith Bool.
 From Verif Require Import vm.Stack vm.StackProofs c20.Frames c20.FramesProofs.
+From Verif Require c01vm.Syntax c01vm.Code c01vm.VM c01vm.Compile c20.AbsVM c20.AbsVMProofs c20.VMForms c20.VMFormsProofs.
 Import ListNotations.
 Open Scope Z_scope.
 
@@ -101,6 +102,52 @@ Theorem C20_push_pop_loop_bounded_partial : forall (A : Type) (v : A) C c n c', 
   iter (bool * stack A) (pp_step A v) n c = Some c' -> len (data (snd c')) <= C.
 Proof. exact push_pop_loop_bounded. Qed.
 Print Assumptions C20_push_pop_loop_bounded_partial.
+
+(* --- 4. bounds for ACTUAL compiled code, over the concrete VM model coq/c01vm ------------------- *)
+(* c01vm/Compile.v transcribes compiler.go and c01vm/VM.v the Next loop for fragment F (both tied to
+   the implementation by instruction-list and per-instruction footprint correspondence).  c20/AbsVM.v
+   is an abstract interpreter of that VM (depths and counts only, all data-dependent branches taken).
+   Soundness: every concrete successor (Next or Emit) is among the abstract successors, for every
+   instance of the natives and every code. *)
+Theorem C20_vm_abs_sound_partial : forall nt code s s',
+  AbsVMProofs.succ nt code s s' -> In (AbsVM.abs s') (AbsVM.astep code (AbsVM.abs s)).
+Proof. exact AbsVMProofs.abs_sound. Qed.
+Print Assumptions C20_vm_abs_sound_partial.
+
+(* a closed abstract set is an invariant that returns after one step: instance K = 1 of loop_bound *)
+Theorem C20_vm_closed_bound_partial : forall nt code R, AbsVM.closed code R = true ->
+  forall n s s', In (AbsVM.abs s) R -> iter VM.state (AbsVMProofs.vstep nt code) n s = Some s' ->
+  Z.of_nat (AbsVM.fp s') <= Z.of_nat (AbsVM.max_afp R).
+Proof. exact AbsVMProofs.closed_bound. Qed.
+Print Assumptions C20_vm_closed_bound_partial.
+
+(* a computed certificate bounds the footprint (len forks + live stack cells incl. those a fork can
+   restore + scope frames + variable slots) of every reachable state: any natives, any input, any
+   number of steps, Next calls included *)
+Theorem C20_vm_certify_sound_partial : forall code fuel C, AbsVM.certify code fuel = Some C ->
+  forall nt v n s, iter VM.state (AbsVMProofs.vstep nt code) n (VM.init v) = Some s -> (AbsVM.fp s <= C)%nat.
+Proof. exact AbsVMProofs.certify_sound. Qed.
+Print Assumptions C20_vm_certify_sound_partial.
+
+(* the loop forms inside the model today, each with its constant (independent of the input):
+   reduce/foreach over .[], [.[] | f], .[] with comma / if / elif bodies, label/break loops, the
+   label+foreach shape of limit, the shapes of first and isempty, nested iteration and nested reduce,
+   bindings, try/catch, //, ? inside the loop body.  [bounded_by q C]: compile q = Some code and every
+   state reachable from init v (any v, any natives) has footprint <= C. *)
+Theorem C20_vm_forms_bounded_partial :
+  Forall (fun qc => VMFormsProofs.bounded_by (fst qc) (snd qc)) VMFormsProofs.forms_table.
+Proof. exact VMFormsProofs.vm_forms_bounded. Qed.
+Print Assumptions C20_vm_forms_bounded_partial.
+
+(* reduce .[] as $x (0; . + 1) *)
+Theorem C20_vm_reduce_bounded_partial : VMFormsProofs.bounded_by VMForms.f_reduce 16.
+Proof. exact VMFormsProofs.vm_reduce_bounded. Qed.
+Print Assumptions C20_vm_reduce_bounded_partial.
+
+(* label $out | foreach .[] as $x (0; . + 1; if . > 3 then ., break $out else . end) *)
+Theorem C20_vm_limit_shape_bounded_partial : VMFormsProofs.bounded_by VMForms.f_limit_shape 22.
+Proof. exact VMFormsProofs.vm_limit_shape_bounded. Qed.
+Print Assumptions C20_vm_limit_shape_bounded_partial.
 
 (* non-vacuity: concrete states meeting the hypotheses.
    Stack: push 1; push 2; save; pop; push 3; restore  -- the saved view [2;1] survives the push of 3,
